@@ -2496,7 +2496,8 @@ class CencSampleEncryptionBox(FullBox):
         return rv
 
     def encode_fields(self, dest):
-        if len(self.samples) > 0:
+        if any(s.subsamples for s in self.samples):
+            # UseSubsampleEncryption
             self.flags |= 0x02
         super().encode_fields(dest)
 
